@@ -2,7 +2,15 @@
    Only the property theorems; the model is TSS.Alg.PS (ideal-group model: scalars in an arbitrary field F,
    G1/G2/GT arbitrary F-modules written additively, e a bilinear map, hash functions and random oracles arbitrary
    functions).  pn pp = size (pgs pp) = L+1 where L is the configured message length; party identifiers are 1..N
-   and are distinct as scalars (N below the characteristic: premise natF_inj). *)
+   and are distinct as scalars (N below the characteristic: premise natF_inj).
+
+   Representatives.  The model computes in the field; the Go code computes with big integers that REPRESENT field elements
+   (mathlib v0.0.2: Zr.Plus does not reduce, Zr.Mul does).  The theorems are about the field elements and are unaffected by
+   the choice of representative, but the code serialises representatives with a fixed 32-byte encoding (Zr.Bytes), so every
+   sum has to be reduced before it is serialised: Polynomial.ValueAt and Shares.reconstruct do, the proof responses are sums
+   of two terms (< 2r < 2^256), and combineShares - the sum of n shares - did not (KeyGen panicked in SK.Bytes from n = 6 on,
+   always for n >= 12; repaired, see KNOWN_FINDINGS.txt).  The tie compares scalars modulo r and exercises (n,t) up to
+   (12,7) in the quick tier and (16,2), (10,10) in the thorough tier. *)
 From mathcomp Require Import all_ssreflect all_algebra.
 From TSS Require Import Alg.Lagrange Alg.PS Corr.PSCorr.
 Import GRing.Theory.
